@@ -207,6 +207,16 @@ class Retain:
         self.touch_atoms: Dict[str, int] = {}
         self.citations: List[Tuple[int, int]] = []  # (node, ctx node) removals "because t in ctx"
 
+    simplify_before_elimination = False
+    strict = False  # strict: redundancy removal before an elimination may lose the term (see keep)
+
+    def elimination_possible(self, sdesc) -> bool:
+        """is the eliminated set of this relax / refine node possibly non-empty on this path?"""
+        ev = next((e for e in self.p.events if e.get("kind") in ("relax", "refine") and e.get("S") == sdesc), None)
+        if ev is None or ev.get("S_tt") is None:
+            return True
+        return bool(ev["S_tt"] & self.p.allowed) and satisfiable(list(self.p.conds) + [("E", ev["S_tt"])], self.p.allowed)
+
     def touch(self, sdesc: str) -> int:
         if sdesc not in self.touch_atoms:
             self.touch_atoms[sdesc] = self.at.atom("touches{%s}" % sdesc)
@@ -239,15 +249,18 @@ class Retain:
             r = self.keep(node[1])
             if node[2] is not None:
                 r &= neg(self.keep(node[2]))
-        elif op == "relax":
+        elif op in ("relax", "refine"):
             # non-touching terms are copied; touching ones may be rewritten or dropped
             r = self.keep(node[1]) & neg(self.touch(node[3]))
             if node[4]:  # simplify flag on this path
                 r &= neg(self.keep(node[2]))
-        elif op == "refine":
-            r = self.keep(node[1]) & neg(self.touch(node[3]))
-            if node[4]:
-                r &= neg(self.keep(node[2]))
+                # the list is first simplified in its context: a non-touching term that is implied by sibling or
+                # context terms is removed as redundant - and those siblings / context terms may mention the
+                # eliminated variables, so what made the term redundant is rewritten or dropped afterwards (only one
+                # substitution is made per term).  Nothing is certain to survive unless nothing is eliminated.
+                if self.strict and self.elimination_possible(node[3]):
+                    self.simplify_before_elimination = True
+                    r = 0
         else:
             r = 0
         self.memo[n] = r
@@ -264,6 +277,12 @@ def retention_check(p: Path, which: str) -> List[dict]:
     a_res, g_res = res.fields["a"], res.fields["g"]
     kept = R.keep(g_res.n) | R.keep(a_res.n)
     at = R.at
+    # the same question with redundancy removal before an elimination counted as a possible loss
+    RS_ = Retain(p)
+    RS_.strict = True
+    RS_.at = at
+    RS_.touch_atoms = R.touch_atoms
+    kept_strict = RS_.keep(g_res.n) | RS_.keep(a_res.n)
     for nm in ("G1", "G2", "A1", "A2"):
         at.atom("t in %s" % nm)
     notouch = ONES
@@ -286,6 +305,24 @@ def retention_check(p: Path, which: str) -> List[dict]:
                 work += [nd[1], nd[2]]
             elif nd[0] in ("diff", "copy", "simp", "with_vars", "relax", "refine"):
                 work.append(nd[1])
+        # the terms taken out of the guarantees at the end (G - terms_with_vars(G, S)) are an elimination as well
+        removed: Set[int] = set()
+        for k in anc:
+            nd = p.prov.nodes[k]
+            if nd[0] == "diff" and p.prov.nodes[nd[2]][0] == "with_vars":
+                removed.add(nd[2])
+        for ev in p.events:
+            if ev.get("kind") == "with_vars" and ev.get("result") in removed and ev.get("S_tt") is not None:
+                inside = ev["S_tt"] & (iv.tt | ov.tt) & p.allowed
+                bad = bool(inside) and satisfiable(list(p.conds) + [("E", inside)], p.allowed)
+                out.append(
+                    {
+                        "class": "no guarantee over the result's interface is filtered out with the internal ones",
+                        "ok": not bad,
+                        "lost": "the terms removed from the guarantees are those mentioning %s, and variables %s of that set are in the result's interface" % (ev["S"], p.atoms.describe(inside, p.allowed)) if bad else "",
+                        "g_res": p.prov.show(g_res.n, 6),
+                    }
+                )
         for ev in p.events:
             if ev.get("kind") in ("relax", "refine") and ev.get("outcome") == "ok" and ev.get("result") in anc and ev.get("S_tt") is not None:
                 inside = ev["S_tt"] & (iv.tt | ov.tt) & p.allowed
@@ -316,6 +353,17 @@ def retention_check(p: Path, which: str) -> List[dict]:
                 "g_res": p.prov.show(g_res.n, 6),
             }
         )
+        if lost == 0 and RS_.simplify_before_elimination:
+            lost_s = rows & neg(kept_strict)
+            out.append(
+                {
+                    "class": label,
+                    "kind": "simplify-before-elimination",
+                    "ok": lost_s == 0,
+                    "lost": at.describe(lost_s) if lost_s else "",
+                    "g_res": p.prov.show(g_res.n, 6),
+                }
+            )
     return out
 
 
